@@ -98,6 +98,13 @@ def extrema_rules(ctx, rid, fn, spin):
     ok_iter = src(lp.iter) == '%s.items()' % arg
     ctx.inst(rid, fn, lp, ok_iter, "iterates every term of the model" if ok_iter else
              "term loop does not iterate %s.items(): terms are skipped" % arg)
+    # the model that is iterated is the argument as given: a re-keyed copy merges terms whose new keys coincide, and a
+    # dict display / comprehension keeps only the last of them
+    rebinds = [s_ for s_, val in assignments_to(fn.node, arg) if isinstance(s_, ast.stmt) and g.reaches(s_, lp)]
+    ctx.inst(rid, fn, rebinds[0] if rebinds else 'argument %s' % arg, not rebinds,
+             "the argument is iterated as given" if not rebinds else
+             "`%s` replaces the model before the term loop: terms that collide under the new keys overwrite each other and "
+             "drop out of the bound" % src(rebinds[0])[:60])
     rets = [n for n in g.stmts() if isinstance(n, ast.Return)]
     good = [r for r in rets if isinstance(r.value, ast.Tuple) and len(r.value.elts) == 2 and g.reaches(lp, r)]
     for r in rets:
@@ -156,6 +163,12 @@ def extrema_rules(ctx, rid, fn, spin):
 
 def rules(ctx):
     P, R = ctx.prog, ctx.res
+    from .C14 import no_module_state
+    ctx.rule('R15.5', "no function writes module-level state (memo / registry): results independent of earlier calls", floor=1)
+    no_module_state(ctx, 'R15.5')
+    ctx.rule('R15.6', "boolean models reach the temperature estimate through pubo_to_puso, which keeps labelled models labelled (exact-type dispatch)", floor=2)
+    from .C04 import result_type_dispatch
+    result_type_dispatch(ctx, 'R15.6')
     ctx.rule('R15.1', "per path of the term loop the accumulators move by sound amounts; start at 0; returned (lo, hi)", floor=12)
     ctx.rule('R15.2', "quadratic extrema functions delegate to the function of their own kind", floor=2)
     ctx.rule('R15.3', "_get_bounds fills exactly the missing component", floor=3)
